@@ -43,6 +43,13 @@ Theorem C06_eof_any_stream chunks f' outs :
 Proof. exact (eof_any_stream run_cfg_gen chunks f' outs eq_refl). Qed.
 Print Assumptions C06_eof_any_stream.
 
+(* whatever the byte stream and its chunking, every (typ, buf) handed to the callback is exactly one TLV element
+   of Type typ: the outer Type/Length check of the decoders (parse_and_check_tl) passes on it *)
+Theorem C06_delivered_consistent chunks f' outs :
+  run_events run_cfg_gen face_init (map Feed chunks) = (f', outs) ->
+  Forall (fun p => exists body, parse_and_check_tl (snd p) (fst p) = Ok body) (concat outs).
+Proof. exact (delivered_consistent run_cfg_gen chunks f' outs). Qed.
+
 (* the chunk lemma itself: two reads = one read of the concatenation (state and deliveries) *)
 Theorem C06_chunks_compose cfg f c1 c2 f1 o1 f2 o2 :
   face_inv f -> step cfg f (Feed c1) = (f1, o1) -> step cfg f1 (Feed c2) = (f2, o2) ->
